@@ -657,7 +657,7 @@ int tokens_get(AsmContext *asm_context, char *token, int len)
     token_type = TOKEN_NUMBER;
   }
 
-  if (IS_TOKEN(token, '$'))
+  if (token_type != TOKEN_QUOTED && IS_TOKEN(token, '$'))
   {
     snprintf(token, len, "%d",
       asm_context->address / asm_context->bytes_per_address);
